@@ -230,7 +230,7 @@ func opsLine(ops []op) string {
 // ---------------------------------------------------------------- fragmentation
 
 type fragSpec struct {
-	kind  byte // 'o' one, 'a' all, 'c' cycle, 'r' random
+	kind  byte // 'o' one, 'a' all, 'c' cycle, 'p' planned list (last repeated), 'r' random
 	cyc   []int
 	seed  uint64
 	max   uint64
@@ -251,6 +251,12 @@ func (f *fragSpec) size(i uint64) int {
 		return 1 << 40
 	case 'c':
 		return f.cyc[i%uint64(len(f.cyc))]
+	case 'p':
+		// a planned schedule: the listed sizes, the last one repeated
+		if i >= uint64(len(f.cyc)) {
+			return f.cyc[len(f.cyc)-1]
+		}
+		return f.cyc[i]
 	default:
 		return 1 + int(splitmix(f.seed^(i*0x9E3779B97F4A7C15))%f.max)
 	}
@@ -268,6 +274,12 @@ func (f *fragSpec) String() string {
 			parts[i] = strconv.Itoa(s)
 		}
 		return "c" + strings.Join(parts, ",")
+	case 'p':
+		parts := make([]string, len(f.cyc))
+		for i, s := range f.cyc {
+			parts[i] = strconv.Itoa(s)
+		}
+		return "p" + strings.Join(parts, ",")
 	default:
 		return fmt.Sprintf("r%d.%d", f.seed, f.max)
 	}
@@ -1181,6 +1193,11 @@ func runFrag(o *hxlib.Out, idx int, ab, ba *direction) bool {
 		wg.Wait()
 	})
 	if !ok {
+		// the hang report carries the two op lines of the session
+		if n := len(o.OracleFails); n > 0 && o.OracleFails[n-1]["sig"] == "c11-hang" && o.OracleFails[n-1]["op"] == nil {
+			o.OracleFails[n-1]["op"] = clip(fmt.Sprintf("c11 frag %s %s %s", ab.frag.String(), kindsStr(ab.kinds), opsLine(ab.ops)))
+			o.OracleFails[n-1]["op_reverse"] = clip(fmt.Sprintf("c11 frag %s %s %s", ba.frag.String(), kindsStr(ba.kinds), opsLine(ba.ops)))
+		}
 		o.Op(fmt.Sprintf("c11 frag %s %s %s", ab.frag.String(), kindsStr(ab.kinds), opsLine(ab.ops)), "hang")
 		o.Op(fmt.Sprintf("c11 frag %s %s %s", ba.frag.String(), kindsStr(ba.kinds), opsLine(ba.ops)), "hang")
 		return false
@@ -1376,6 +1393,101 @@ func eofCases(o *hxlib.Out, tier string, only int, idx int) bool {
 	return true
 }
 
+// readEndBase is the case index of the first read-buffer-end case (fixed, so
+// that `-only` does not depend on the number of cases before it).
+const readEndBase = 100000
+
+// readEndCases: ONE transport read stops d = 1..20 bytes before the end of
+// the read buffer and the next value straddles that point.  rbuf is
+// len(ReadBuf) of a live Conn of the tree under test.  Stream: [a filler data
+// value of exactly rbuf bytes - only in the "second buffer" variant] m single
+// bytes (misalignment 0..3), one data value that is served from the read
+// window and leaves r bytes of the following value v in it, v (every kind:
+// byte, uint16, uint32, label, and the 4-byte length header of data / string /
+// size list), a value of another kind, a byte.  Transport schedule: the read
+// that was offered the whole free buffer returns free-d bytes; the following
+// reads return 1 byte each / exactly the d bytes up to the buffer end / the
+// rest.  With r in 1..width-1 the value v straddles the stop, and when
+// width > d + r also the end of the buffer.  The thorough tier runs the full
+// product kind x m x d x r x {first, second buffer}; quick runs the third
+// selected by (case + seed) mod 3 with one r per case (rotating), the second
+// buffer for every fourth of those.
+func readEndCases(o *hxlib.Out, tier string, only int, seed uint64, rbuf int) bool {
+	width := map[byte]int{'b': 1, 'h': 2, 'w': 4, 'l': 16, 'd': 4, 's': 4, 'z': 4}
+	rlist := map[int][]int{1: {0}, 2: {1}, 4: {1, 2, 3}, 16: {1, 3, 8, 15}}
+	idx := readEndBase
+	base := 0
+	for ki, k := range []byte("bhwldsz") {
+		n := width[k]
+		for m := 0; m <= 3; m++ {
+			for d := 1; d <= 20; d++ {
+				rs := rlist[n]
+				twices := []bool{false, true}
+				if tier != "thorough" {
+					rs = []int{rs[base%len(rs)]}
+					if (base+int(seed%3))%3 != 0 {
+						rs = nil
+					}
+					if (base/3)%4 != 0 {
+						twices = []bool{false}
+					}
+				}
+				base++
+				for _, r := range rs {
+					for _, twice := range twices {
+						if only >= 0 && idx != only {
+							idx++
+							continue
+						}
+						ab := &direction{name: "A->B", plan: "all", slow: idx % 3}
+						sched := []int{}
+						if twice {
+							ab.ops = append(ab.ops, op{kind: 'v', v: val{kind: 'd', seed: uint64(idx), data: pattern(uint64(idx), rbuf-4)}})
+							sched = append(sched, rbuf)
+						}
+						for j := 0; j < m; j++ {
+							ab.ops = append(ab.ops, op{kind: 'v', v: val{kind: 'b', n: 0xc0 + j}})
+						}
+						fill := rbuf - d - r - m - 4
+						ab.ops = append(ab.ops,
+							op{kind: 'v', v: val{kind: 'd', seed: uint64(idx) + 7, data: pattern(uint64(idx)+7, fill)}},
+							op{kind: 'v', v: sampleValue(k, idx)},
+							op{kind: 'v', v: sampleValue("bhwldsz"[(ki+2)%7], idx+1)},
+							op{kind: 'v', v: val{kind: 'b', n: 0x5a}})
+						sched = append(sched, rbuf-d)
+						switch idx % 3 {
+						case 0:
+							sched = append(sched, 1, 1, 1, 1, 1, 1<<30)
+						case 1:
+							sched = append(sched, 1<<30)
+						default:
+							sched = append(sched, d, 1, 1<<30)
+						}
+						ab.frag = fragSpec{kind: 'p', cyc: sched}
+						for _, v := range ab.vals() {
+							ab.kinds = append(ab.kinds, v.kind)
+						}
+						ba := &direction{name: "B->A", plan: "all", frag: fragSpec{kind: 'a'}}
+						if !runFrag(o, idx, ab, ba) {
+							return false
+						}
+						o.Count("cases_rdend")
+						o.Count("rdend_kind_" + string(k))
+						if n > d+r && r > 0 {
+							o.Count("rdend_value_straddles_buffer_end")
+						}
+						if twice {
+							o.Count("rdend_second_buffer")
+						}
+						idx++
+					}
+				}
+			}
+		}
+	}
+	return true
+}
+
 // pipeCase: the real p2p.Pipe.  Each side sends `rounds` batches; after every
 // batch it flushes and waits for the peer's one-byte acknowledgement of the
 // batch (sent by the peer's receiving goroutine through its own send half is
@@ -1515,7 +1627,8 @@ func main() {
 		os.Exit(dxReplay(os.Args[2:]))
 	case "sys":
 		cf, o := hxlib.ParseCommon("c11", os.Args[2:], nil)
-		rerunBase = fmt.Sprintf("hx-c11 sys -tier %s", cf.Tier)
+		rerunBase = fmt.Sprintf("hx-c11 sys -seed %d -tier %s", cf.Seed, cf.Tier)
+		rbufLive := RBUF
 		// structural facts, taken from the compiled package (reflection and
 		// a fresh Conn), not from source text
 		{
@@ -1529,6 +1642,7 @@ func main() {
 				}
 			}
 			sort.Strings(methods)
+			rbufLive = len(probe.ReadBuf)
 			o.Meta["facts"] = map[string]any{
 				"write_buf_len":     len(probe.WriteBuf),
 				"read_buf_len":      len(probe.ReadBuf),
@@ -1537,7 +1651,9 @@ func main() {
 			probe.Close()
 		}
 		if next, ok := sysCases(o, cf.Tier, cf.Only); ok {
-			eofCases(o, cf.Tier, cf.Only, next)
+			if eofCases(o, cf.Tier, cf.Only, next) {
+				readEndCases(o, cf.Tier, cf.Only, cf.Seed, rbufLive)
+			}
 		}
 		o.Close()
 		os.Exit(0)
